@@ -123,4 +123,7 @@ zzRandModOk(ok, a, mod, nz, tape) ==
   /\ ok \in {0, 1}
   /\ (tape = "seeded" => ok = 1)
   /\ (ok = 1 => Less(a, mod) /\ (nz => ~IsZero(a)))
+\* octets drawn from the caller's generator: zz.h states the cost - every attempt takes O_OF_B(l) octets for 2^{l-1} <= mod < 2^l
+\* ("O_OF_B(l) * 2^l / mod octets on average") - so the total is a positive multiple of O_OF_B(l), whatever the word length
+zzRandUsedOk(used, mod) == LET ol == (BitLen(mod) + 7) \div 8 IN used >= ol /\ used % ol = 0
 =============================================================================
